@@ -169,6 +169,12 @@ theorem format_width (t : Text) (h : Canon t) (fa : Option (Option Char × Align
   rw [format_cells t h sp hv]
   simp only [FmtSpec.widthVal, sp, h3]
 
+/-- iteration (`list(text)`, `for ch in text`: Python's sequence protocol over `__getitem__`) yields
+the one-character texts of the cells, in order, and terminates -/
+theorem iter_cells (t : Text) (h : Canon t) :
+    t.iter = .ok (t.cells.map cellText) ∧ ∀ x, (cellText x).cells = [x] ∧ Canon (cellText x) :=
+  ⟨iter_spec t h.2, fun x => ⟨cellText_cells x, fromChunks_canon _⟩⟩
+
 /-! ## equality -/
 
 /-- two texts satisfying the invariant compare equal iff they show the same characters in the
@@ -194,8 +200,8 @@ theorem chunk_eq_iff (c d : Chunk) (s : List Char) :
 /-! ## all operation trees -/
 
 /-- For every operation tree of the modelled fragment (`e.ty = some τ`: constructor, `+`, `+=`,
-reflected `+` with str / list / tuple, `join`, `[i]`, `[i:j]`, `fixed_len` over strings, chunks,
-texts, nested lists and tuples, to any depth): either the model evaluates it to a value of type `τ`
+reflected `+` with str / list / tuple, `join`, `[i]`, `[i:j]`, `fixed_len`, `list(x)` over strings,
+chunks, texts, nested lists and tuples, to any depth): either the model evaluates it to a value of type `τ`
 in which every text satisfies the invariant and which shows exactly the cells that the same
 operations give on plain sequences (`ref`), or both raise `IndexError`; never anything else. -/
 theorem eval_refines (e : Expr) (τ : Ty) (h : e.ty = some τ) :
@@ -278,6 +284,16 @@ example : eqText ⟨2, [⟨1, ['a']⟩, ⟨1, ['b']⟩]⟩ ⟨2, [⟨1, ['a', 'b
 example : (eval (.idx (.mk [.str "ab".toList]) 2)).map Part.cells = .error (.py .indexError) := by
   decide +kernel
 example : (eval (.idx (.mk [.str "ab".toList]) (-2))).map Part.cells = .ok [('a', 0)] := by decide +kernel
+/-- `list(CHText(RED("a"), "b"))` -/
+example : (construct [.chunk ⟨1, ['a']⟩, .str ['b']]).iter = .ok [⟨1, [⟨1, ['a']⟩]⟩, ⟨1, [⟨0, ['b']⟩]⟩] := by
+  decide +kernel
+/-- `CHText(RED("ab")) == RED("ab")`, `CHText("ab") == "ab"`, `RED("") == ""` is outside `EqDomain` -/
+example : EqDomain (.text (construct [.chunk ⟨1, ['a', 'b']⟩])) (.chunk ⟨1, ['a', 'b']⟩) ∧
+    pyEq (.text (construct [.chunk ⟨1, ['a', 'b']⟩])) (.chunk ⟨1, ['a', 'b']⟩) = .ok true ∧
+    pyEq (.str ['a', 'b']) (.text (construct [.str ['a'], .str ['b']])) = .ok true ∧
+    ¬ EqDomain (.chunk ⟨1, []⟩) (.str []) := by
+  refine ⟨trivial, by decide +kernel, by decide +kernel, ?_⟩
+  simp [EqDomain]
 /-- `f"{RED('ab') + 'c':*^7}"` -/
 example : (FmtSpec.mk (some (some '*', .center)) ['7'] false).Valid := by
   refine ⟨?_, by decide⟩
